@@ -45,6 +45,16 @@ def setup():
     bad = 0
     mods = sorted(glob.glob(VERIF + "/spec/*.tla")) + sorted(glob.glob(VERIF + "/spec/mc/*.tla"))
     for m in mods:
+        if re.search(r"EXTENDS[^\n]*\bApalache\b", open(m).read()):
+            # Apalache.tla lives inside apalache.jar, SANY alone cannot resolve it: let Apalache parse and type-check it
+            wd = VERIF + "/work/setup_apa"
+            p = subprocess.run(["timeout", "300", "apalache-mc", "typecheck", f"--out-dir={wd}", f"--run-dir={wd}/run", m],
+                               cwd=os.path.dirname(m), capture_output=True, text=True)
+            shutil.rmtree(wd, ignore_errors=True)
+            if p.returncode != 0:
+                print("APALACHE typecheck:", m, p.stdout[-800:], p.stderr[-400:])
+                bad += 1
+            continue
         p = subprocess.run(["tla-sany", m], cwd=os.path.dirname(m), env=env, capture_output=True, text=True)
         if "*** Errors" in p.stdout or "rror" in p.stderr or p.returncode != 0:
             print("SANY:", m, p.stdout[-800:])
